@@ -77,8 +77,8 @@ func ToCatalog(rows []any, ident string, identRight string, joinExpr sqlparser.E
 			if err != nil {
 				return nil, err
 			}
-			buffer.WriteString(fmt.Sprintf("%v", reader))
-			buffer.WriteString("-")
+			text := fmt.Sprintf("%v", reader)
+			buffer.WriteString(fmt.Sprintf("%d:%s", len(text), text))
 			mapper[mappedColumns[column]] = reader
 		}
 		hash, err := ToHash(buffer.Bytes())
